@@ -280,7 +280,7 @@ class SymDomain(BaseDomain):
             outer=lambda a, b: wrap(np.outer(wrap(a), wrap(b))),
             finfo=lambda t=None: Namespace("finfo", eps=2.220446049250313e-16, tiny=2.2250738585072014e-308),
             mean=lambda a, **k: d.np_sum(a, **k) / wrap(a).size,
-            count_nonzero=lambda a: UNKNOWN("count_nonzero"),
+            count_nonzero=d.np_count_nonzero,
             triu=lambda a, k=0: d._tri(a, k, True), tril=lambda a, k=0: d._tri(a, k, False),
             ix_=np.ix_, prod_=None,
             linalg=Namespace("np.linalg", norm=d.la_norm, svd=d.la_svd, qr=d.la_qr_np, eig=d.la_eig, eigh=d.la_eigh,
@@ -417,10 +417,36 @@ class SymDomain(BaseDomain):
             return a
         if a.kind == "quat" and a.size == 0:
             return SQ()
+        if axis is None and a.size and any(is_unknown(v) for v in a.reshape(-1)):
+            return self._count_true(a)      # np.sum(<boolean array of symbolic comparisons>)
         r = np.asarray(a, dtype=object).sum(axis=axis)
         if isinstance(r, np.ndarray):
             return SymArr(r, a.kind)
         return r if not (is_number(r) and not isinstance(r, Poly)) else Poly.const(r) if a.size == 0 else r
+
+    def _count_true(self, a):
+        """Number of True entries of a boolean array whose entries may be UNKNOWN conditions
+        (element comparisons on symbolic data).  Every UNKNOWN entry is resolved by the
+        interpreter's chooser (NeedChoice without one); conditions and decisions are recorded as
+        an event ('count', [(cond, decision), ...]) so a rule can inspect what was counted."""
+        conds, n = [], 0
+        for v in wrap(a).reshape(-1):
+            if is_unknown(v):
+                if self._interp is None:
+                    raise Unsupported("count of symbolic conditions without an interpreter")
+                t = self._interp.decide(None, v)
+            else:
+                t = bool(v)
+            conds.append((v, t))
+            n += int(t)
+        self.events.append(("count", conds))
+        return n
+
+    def np_count_nonzero(self, a, axis=None, **k):
+        a = wrap(a)
+        if axis is None and all(isinstance(v, (bool, np.bool_)) or is_unknown(v) for v in a.reshape(-1)):
+            return self._count_true(a)
+        return UNKNOWN("count_nonzero")
 
     def np_prod(self, a, axis=None):
         a = wrap(a)
@@ -797,7 +823,11 @@ class SymDomain(BaseDomain):
             bb = np.asarray(b, dtype=object) if isinstance(b, SymArr) else b
             if isinstance(b, tuple) and op in (operator.eq, operator.ne):
                 return op(tuple(a.shape), b) if False else UNKNOWN("array==tuple")
-            r = op(aa, bb)
+            try:
+                r = op(aa, bb)
+            except UnknownTruth:
+                # element comparisons that depend on symbolic data: object array of UNKNOWN conditions
+                r = np.frompyfunc(op, 2, 1)(aa, bb)
             if isinstance(r, np.ndarray):
                 return SymArr(r, "real")
             return r
